@@ -67,6 +67,39 @@ def panic_sites():
     return sites
 
 
+ARITH = re.compile(r"(?<![=!<>&|+\-*/%^])\s(\+|-|\*|/|%|<<|>>)=?\s(?!=)|\bas\s+(u8|u16|u32|u64|u128|usize|i8|i16|i32|i64|i128|isize|f32|f64|Self::Float|Self::Int)\b|\.pow\(|\.abs\(\)")
+
+
+def arithmetic_sites():
+    """lines of the library (outside tests, Display code and hooks) that perform primitive arithmetic, shifts or `as` casts:
+    the places where a build with overflow checks could panic or a build without them could wrap.  The model writes
+    each of them with its range test (checked_*) or its wrap (wrapping_shl / wrapping_shr) explicitly."""
+    sites = []
+    for p in rust_sources():
+        rel = os.path.relpath(p, L.REPO)
+        if rel.endswith("display.rs") or rel in ("src/lib.rs", "src/verif.rs", "src/bin/evalexpr.rs"):
+            continue
+        text = strip_rust(open(p).read())
+        for line in text.splitlines():
+            s = line.strip()
+            if not s or s.startswith(("#[", "use ", "#![", "///", "//")) or "->" in s and "fn " in s:
+                continue
+            if ARITH.search(s) and not re.search(r"impl<|where|: Add<|: Sub<|Output = Self", s):
+                sites.append([rel, re.sub(r"\s+", " ", s)])
+    return sites
+
+
+def arithmetic_site_audit():
+    base_path = os.path.join(L.ROOT, "tools", "arithmetic_sites.json")
+    cur = arithmetic_sites()
+    try:
+        base = json.load(open(base_path))
+    except FileNotFoundError:
+        return ["baseline tools/arithmetic_sites.json missing"], cur
+    bset = {tuple(x) for x in base}
+    return ["%s: %s" % (f, c) for f, c in cur if tuple(x for x in (f, c)) not in bset], cur
+
+
 def panic_site_audit():
     base_path = os.path.join(L.ROOT, "tools", "panic_sites.json")
     cur = panic_sites()
@@ -83,6 +116,9 @@ if __name__ == "__main__":
     import sys
     if len(sys.argv) > 1 and sys.argv[1] == "write-baseline":
         json.dump(panic_sites(), open(os.path.join(L.ROOT, "tools", "panic_sites.json"), "w"), indent=0)
+        json.dump(arithmetic_sites(), open(os.path.join(L.ROOT, "tools", "arithmetic_sites.json"), "w"), indent=0)
     print("purity:", purity())
     new, cur = panic_site_audit()
     print("panic sites:", len(cur), "new:", new)
+    new, cur = arithmetic_site_audit()
+    print("arithmetic sites:", len(cur), "new:", new)
